@@ -614,6 +614,151 @@ def sweep_cases(tier):
 
 
 # ---------------------------------------------------------------------------------------------------------
+# systems told apart by their ids only; round request sizes
+# ---------------------------------------------------------------------------------------------------------
+
+def _id_pool():
+    import enum
+
+    class Phase(enum.Enum):
+        GROW = 'grow'
+        DIE = 'die'
+
+    class Word(enum.Enum):
+        ALPHA = 1
+
+    class StrEnum(str, enum.Enum):
+        MOVE = 'move'
+
+    class Name(str):
+        pass
+    return {'str': 'plain', 'int': 7, 'zero': 0, 'enum': Phase.GROW, 'enum2': Word.ALPHA, 'strenum': StrEnum.MOVE,
+            'strsub': Name('named'), 'tuple': ('layer', 2), 'bytes': b'raw', 'float': 2.5, 'frozenset': frozenset({1})}
+
+
+ID_KINDS = ['str', 'int', 'zero', 'enum', 'enum2', 'strenum', 'strsub', 'tuple', 'bytes', 'float', 'frozenset']
+ID_WINDOWS = [(0, DEFAULT, 1), (1, 6, 2), (2, DEFAULT, 3), (0, 4, 1), (3, 3, 1), (-2, DEFAULT, 4), (1, DEFAULT, 1),
+              (0, 8, 3), (4, DEFAULT, 2), (0, 0, 1), (5, 9, 1)]
+
+
+def ids_case(case):
+    """Systems registered under ids of many kinds (numbers, enum members, str subclasses, tuples ...) or that compare
+    and hash equal to one another while registered under different ids: each runs by ITS window."""
+    reset_library()
+    model = new_model(seed=1)
+    log = []
+    Rec = make_rec(log)
+    pool = _id_pool()
+    specs = {}
+    if case['kind'] == 'value_equal':
+        class Decay(Rec):
+            rate = 3
+
+            def __eq__(self, other):
+                return isinstance(other, Decay) and other.rate == self.rate
+
+            def __hash__(self):
+                return hash(self.rate)
+        for i, k in enumerate(case['which']):
+            start, end, freq = ID_WINDOWS[i]
+            specs[k] = (start, end, freq)
+            model.systems.add_system(Decay(k, model, case['prios'][i], start, end, freq))
+    else:
+        for i, k in enumerate(case['which']):
+            start, end, freq = ID_WINDOWS[(i + case.get('shift', 0)) % len(ID_WINDOWS)]
+            specs[k] = (start, end, freq)
+            model.systems.add_system(Rec(k, model, case['prios'][i], start, end, freq, sid=pool[k]))
+    horizon = case['horizon']
+    done = 0
+    gone = case.get('remove')         # [key, timestep before which it is removed] (steps are single then)
+    for n in case['steps']:
+        if gone and done == gone[1]:
+            model.systems.remove_system(gone[0])
+        if n == 1:
+            model.execute()
+        else:
+            model.execute(n)
+        done += n
+        if model.timestep != done or model.systems.timestep != done:
+            raise Violation(f'clock after {done} steps', expected=done, observed=[model.timestep, model.systems.timestep])
+    prio = dict(zip(case['which'], case['prios']))
+    exp = []
+    for t in range(horizon):
+        due = [k for k in case['which'] if active(t, *specs[k]) and not (gone and k == gone[0] and t >= gone[1])]
+        due.sort(key=lambda k: -prio[k])
+        exp += [(t, k) for k in due]
+    if log != exp:
+        bad = next((i for i, (a, b) in enumerate(zip(log, exp)) if a != b), min(len(log), len(exp)))
+        raise Violation(f'systems {case["which"]} ({case["kind"]}): activations differ from the window predicate from entry '
+                        f'{bad} on', expected=exp[bad:bad + 6], observed=log[bad:bad + 6])
+    return tuple(log)
+
+
+def ids_cases():
+    for steps in ([1] * 10, [10], [3, 1, 6]):
+        for k in ID_KINDS:
+            yield {'leg': 'ids', 'kind': 'ids', 'which': [k], 'prios': [0], 'steps': steps, 'horizon': 10}
+            yield {'leg': 'ids', 'kind': 'ids', 'which': ['str', k] if k != 'str' else ['str', 'int'], 'prios': [2, 1],
+                   'steps': steps, 'horizon': 10, 'shift': 1}
+        yield {'leg': 'ids', 'kind': 'ids', 'which': ID_KINDS, 'prios': list(range(len(ID_KINDS), 0, -1)), 'steps': steps,
+               'horizon': 10}
+        yield {'leg': 'ids', 'kind': 'ids', 'which': ID_KINDS, 'prios': list(range(len(ID_KINDS))), 'steps': steps,
+               'horizon': 10, 'shift': 3}
+        for which, prios in ((['d1', 'd2'], [2, 1]), (['d1', 'd2'], [1, 1]), (['d1', 'd2', 'd3'], [1, 2, 3])):
+            yield {'leg': 'ids', 'kind': 'value_equal', 'which': which, 'prios': prios, 'steps': steps, 'horizon': 10}
+    # ... and one of the equal systems is removed between two timesteps: IT stops running, its twins carry on
+    for which, prios in ((['d1', 'd2'], [2, 1]), (['d1', 'd2'], [1, 1]), (['d1', 'd2', 'd3'], [1, 2, 3]),
+                         (['d1', 'd2', 'd3'], [0, 0, 0])):
+        for k in which:
+            for at in (0, 2, 5):
+                yield {'leg': 'ids', 'kind': 'value_equal', 'which': which, 'prios': prios, 'steps': [1] * 10, 'horizon': 10,
+                       'remove': [k, at]}
+
+
+ROUND_N = [1000, 1024, 2048, 4096, 8192, 10000, 16384, 20000, 30000, 32768, 50000, 65536, 100000]
+
+
+def round_n_case(case):
+    """execute(n) for round n (powers of two and of ten): the same as n single steps - clock n, an every-step system
+    ran n times (last at n - 1), a system with a window at the very end ran in it."""
+    reset_library()
+    model = new_model(seed=1)
+    n = case['n']
+    count = [0, None]
+    tail = []
+
+    class Every(Core.System):
+        def execute(self):
+            count[0] += 1
+            count[1] = self.model.systems.timestep
+
+    class Tail(Core.System):
+        def execute(self):
+            tail.append(self.model.systems.timestep)
+    model.systems.add_system(Every('every', model))
+    model.systems.add_system(Tail('tail', model, start=n - 3, end=n + 5, frequency=2))
+    if case.get('pre'):
+        model.execute(case['pre'])
+    model.execute(n)
+    total = n + case.get('pre', 0)
+    want_tail = [t for t in range(total) if active(t, n - 3, n + 5, 2)]
+    got = [model.timestep, model.systems.timestep, count[0], count[1], tail]
+    want = [total, total, total, total - 1, want_tail]
+    if got != want:
+        raise Violation(f'execute({n}){" after execute(%d)" % case["pre"] if case.get("pre") else ""}: clock, clock, runs of '
+                        f'an every-step system, its last timestep, runs of a system due at the end', expected=want,
+                        observed=got)
+    return n
+
+
+def round_n_cases(tier):
+    for n in ROUND_N if tier == 'quick' else ROUND_N + [131072, 200000, 262144]:
+        yield {'leg': 'round_n', 'n': n}
+    for n in (10000, 20000, 4096):
+        yield {'leg': 'round_n', 'n': n, 'pre': 3}
+
+
+# ---------------------------------------------------------------------------------------------------------
 # multi-system BFS
 # ---------------------------------------------------------------------------------------------------------
 
@@ -840,7 +985,8 @@ def run(ctx):
         for gen, fn, name in ((manager_swap_cases, manager_swap_case, 'manager_swap'), (rewind_cases, rewind_case, 'rewind'),
                               (interrupted_cases, interrupted_case, 'interrupted'), (tuned_cases, tuned_case, 'tuned'),
                               (lambda: ({'leg': 'wrapped_manager', 'n': n, 'freq': f} for n in (1, 2, 9) for f in (1, 2)),
-                               wrapped_manager_case, 'wrapped_manager')):
+                               wrapped_manager_case, 'wrapped_manager'), (ids_cases, ids_case, 'ids'),
+                              (lambda: () if ctx.small else round_n_cases(ctx.tier), round_n_case, 'round_n')):
             nn = 0
             for case in gen():
                 ctx.traces += 1
@@ -887,6 +1033,12 @@ def replay(case):
         return
     if case['leg'] == 'tuned':
         hbfs._guard(tuned_case, case)
+        return
+    if case['leg'] == 'ids':
+        hbfs._guard(ids_case, case)
+        return
+    if case['leg'] == 'round_n':
+        hbfs._guard(round_n_case, case)
         return
     if case['leg'] == 'rewind':
         hbfs._guard(rewind_case, case)
